@@ -187,7 +187,11 @@ func (lalr *LALR1) CaclIncludeRelation(tr int) []Relation {
 		LeftSy := r.LeftPart
 		for Dot, sycheck := range r.RighPart {
 			if sy == sycheck && lalr.seqenceCanEpsilon(r.RighPart[Dot+1:]) {
-				for _, q := range lalr.fechStateNumber(index) {
+				// p' --beta--> p : every state p' from which the symbols before the dot lead to p
+				for q := range lalr.G.LR0.LR0Closure {
+					if end, ok := lalr.walk(q, index, Dot); !ok || end != lalr.trans[tr].q {
+						continue
+					}
 					if to_index, err := lalr.fetchTransIndex(q, int(LeftSy.ID)); err == nil {
 						res = append(res, Relation{x: tr, y: to_index})
 					}
@@ -197,6 +201,20 @@ func (lalr *LALR1) CaclIncludeRelation(tr int) []Relation {
 		}
 	}
 	return res
+}
+
+// walk follows the first n right-hand-side symbols of rule ruleIndex from state q.
+// ok is false when some transition on the way does not exist.
+func (lalr *LALR1) walk(q int, ruleIndex int, n int) (int, bool) {
+	rhs := lalr.G.ProductoinRules[ruleIndex].RighPart
+	for k := 0; k < n; k++ {
+		idx, err := lalr.fetchTransIndex(q, int(rhs[k].ID))
+		if err != nil {
+			return 0, false
+		}
+		q = lalr.trans[idx].to
+	}
+	return q, true
 }
 
 // calc all the relation
@@ -220,8 +238,11 @@ func (lalr *LALR1) CalcLookbacks() []Relation {
 		for tr_2 := range lalr.DRSet {
 			SyIndex := lalr.trans[tr_2].sym_or_rule
 			if SyIndex == leftPart.ID {
-				// trIndex lookback tr2
-				res = append(res, Relation{x: trIndex, y: tr_2})
+				// trIndex lookback tr2 only if the rule's right-hand side leads from tr2's state to this state
+				rhsLen := len(lalr.G.ProductoinRules[ruleIndex].RighPart)
+				if end, ok := lalr.walk(lalr.trans[tr_2].q, int(ruleIndex), rhsLen); ok && end == tr.q {
+					res = append(res, Relation{x: trIndex, y: tr_2})
+				}
 			}
 		}
 	}
